@@ -56,6 +56,10 @@ def t2(run: Run, prog: Program):
     for C in sorted(classes, key=lambda c: c.name):
         M = _matrix_cell(prog, C)
         cells = {M, "_" + M}
+        # the constructor builds the first network from the first matrix
+        init = C.methods.get("__init__")
+        if init is not None:
+            _t2_defuse(run, C, init, M, prog)
         for name, f in sorted(prog.all_methods(C).items()):
             if f.kind != "method" or name.startswith("_") or f.cached:
                 continue
@@ -176,6 +180,32 @@ def _adj_facts(prog, C, fnode, sn, M, expr, before_line, depth=0):
     return fm, cp, minus_eye, src
 
 
+_SHAPE_CHANGING = ("np.delete", "numpy.delete", "np.compress", "np.take", "np.resize")
+
+
+def _reshaped_before(fnode, name: ast.Name, before_line):
+    """The statement that re-binds `name` to a smaller selection of itself
+    (np.delete / compress / take of it, `name[mask][:, mask]`, np.ix_) before
+    line `before_line`, or None."""
+    for n in ast.walk(fnode):
+        if not (isinstance(n, ast.Assign) and len(n.targets) == 1 and
+                isinstance(n.targets[0], ast.Name) and n.targets[0].id == name.id and
+                n.lineno < before_line):
+            continue
+        v = n.value
+        if isinstance(v, ast.Call) and ast.unparse(v.func) in _SHAPE_CHANGING and \
+                v.args and name.id in {x.id for x in ast.walk(v.args[0])
+                                       if isinstance(x, ast.Name)}:
+            return n
+        base = v
+        sub = False
+        while isinstance(base, ast.Subscript):
+            base, sub = base.value, True
+        if sub and isinstance(base, ast.Name) and base.id == name.id:
+            return n
+    return None
+
+
 def _t2_defuse(run, C, f, M, prog=None):
     """Network.__init__(self, A, ...) must receive a copy of the matrix with
     its diagonal cleared."""
@@ -194,6 +224,22 @@ def _t2_defuse(run, C, f, M, prog=None):
                                 f"`{ast.unparse(a)}` not resolved")
             continue
         from_matrix, copied, cleared, src = facts
+        # the node set is the set of state vectors: `N` is one attribute, written
+        # by the plot (number of states) and by Network's adjacency setter
+        # (number of nodes) and read by the quantification methods of both
+        resh = _reshaped_before(f.node, a, c.lineno) if isinstance(a, ast.Name) else None
+        run.oblige("T10", f"{f.qualname}:adjacency-shape@{c.lineno}", resh is None,
+                   sample={"where": f"{f.module.relpath}:{c.lineno}"})
+        if resh is not None:
+            run.add("T10", f"{f.qualname}/adjacency-shape",
+                    f"{f.module.relpath}:{resh.lineno}",
+                    f"{f.qualname}: `{ast.unparse(resh)[:70]}` removes rows/columns from "
+                    f"the matrix before it is handed to Network.__init__: the network "
+                    f"is then not the recurrence matrix without its diagonal, and the "
+                    f"shared attribute N (set by the adjacency setter to the number of "
+                    f"nodes) no longer is the number of state vectors the plot's "
+                    f"quantification methods iterate over (recurrence_rate, line "
+                    f"distributions on R)")
         ok = from_matrix and copied and cleared
         run.oblige("T2", inst, ok, sample={
             "where": f"{f.module.relpath}:{c.lineno}", "def": src,
@@ -486,6 +532,106 @@ def t8(run: Run, cy: CyProgram):
     run.floor("T8 distance kernels", n, 6)
 
 
+def t11(run: Run, prog: Program):
+    """A method that measures a size attribute on the matrix it has just built
+    (`self.N = self.JR.shape[0]`: the joint plot covers only the overlap of the
+    lagged plots) must not let a later statement overwrite that attribute - in
+    particular not through a property setter that also maintains it
+    (`self.embedding = ...` sets N to the length of the embedding)."""
+    from .pymodel import _Builder
+    n = 0
+    for C in sorted((c for c in prog.classes.values() if prog.is_subclass(c, PLOT_ROOT)),
+                    key=lambda c: c.name):
+        M = _matrix_cell(prog, C)
+        if M is None:
+            continue
+        for name, f in sorted(C.methods.items()):
+            if f.kind != "method" or not f.params:
+                continue
+            sn = f.params[0]
+            body = f.node.body
+            for i, st in enumerate(body):
+                if not (isinstance(st, ast.Assign) and len(st.targets) == 1 and
+                        isinstance(st.targets[0], ast.Attribute) and
+                        isinstance(st.targets[0].value, ast.Name) and
+                        st.targets[0].value.id == sn):
+                    continue
+                size = st.targets[0].attr
+                v = ast.unparse(st.value).replace(" ", "")
+                if v not in (f"{sn}.{M}.shape[0]", f"len({sn}.{M})", f"{sn}._{M}.shape[0]"):
+                    continue
+                n += 1
+                b = _Builder(prog, f, C, {}, True)
+                later = None
+                for st2 in body[i + 1:]:
+                    try:
+                        t2 = b.block([st2])
+                    except AnalysisError:
+                        continue
+                    if any(e.kind in ("write", "assign") and e.cell == size
+                           for e in iter_events(t2)):
+                        later = st2
+                        break
+                run.oblige("T11", f"{f.qualname}:{size}", later is None, sample={
+                    "where": f"{f.module.relpath}:{st.lineno}", "size": size, "matrix": M})
+                if later is not None:
+                    run.add("T11", f"{f.qualname}/{size}-overwritten",
+                            f"{f.module.relpath}:{later.lineno}",
+                            f"{f.qualname} sets `{size}` to the size of the matrix it "
+                            f"built (`{ast.unparse(st)}`) and then "
+                            f"`{ast.unparse(later)[:60]}` rewrites `{size}`: the size "
+                            f"attribute no longer matches `{M}` (with a lag the joint "
+                            f"matrix is smaller than the embedded series), every "
+                            f"quantification that iterates over `{size}` reads outside "
+                            f"or computes rates with the wrong normaliser")
+    run.floor("T11 explicit size measurements", n, 2)
+
+
+def t12(run: Run, prog: Program):
+    """The missing-value mask blanks rows and columns of the recurrence matrix,
+    which are indexed by *state vectors*: it must be computed on the states the
+    distances are computed on (`self.embedding`), not on the raw samples - with
+    an embedding a state holds a missing value whenever any of its dim lagged
+    samples does."""
+    n = 0
+    for C in sorted((c for c in prog.classes.values() if prog.is_subclass(c, PLOT_ROOT)),
+                    key=lambda c: c.name):
+        for name, f in sorted(C.methods.items()):
+            if not f.params:
+                continue
+            sn = f.params[0]
+            for st in ast.walk(f.node):
+                if not (isinstance(st, ast.Assign) and len(st.targets) == 1 and
+                        isinstance(st.targets[0], ast.Attribute) and
+                        isinstance(st.targets[0].value, ast.Name) and
+                        st.targets[0].value.id == sn and
+                        st.targets[0].attr == "missing_value_indices"):
+                    continue
+                from .idioms import inline_locals
+                v = inline_locals(f.node, st.value)
+                reads = {x.attr for x in ast.walk(v) if isinstance(x, ast.Attribute)
+                         and isinstance(x.value, ast.Name) and x.value.id == sn}
+                n += 1
+                on_states = bool(reads & {"embedding", "_embedding"})
+                on_samples = bool(reads & {"time_series", "x", "y"})
+                if not on_states and not on_samples:
+                    run.unknowns.append(f"T12: {f.where}: source of the missing-value "
+                                        f"mask not recognised ({sorted(reads)})")
+                    continue
+                run.oblige("T12", f"{f.qualname}:mask-source", on_states, sample={
+                    "where": f"{f.module.relpath}:{st.lineno}", "reads": sorted(reads)})
+                if not on_states:
+                    run.add("T12", f"{f.qualname}/mask-from-samples",
+                            f"{f.module.relpath}:{st.lineno}",
+                            f"{f.qualname} computes the missing-value mask from "
+                            f"{sorted(reads & {'time_series', 'x', 'y'})} (one entry per "
+                            f"sample) although it blanks rows/columns of the recurrence "
+                            f"matrix (one per embedded state): with dim > 1 states that "
+                            f"contain a missing sample at a later lag stay unmarked and "
+                            f"are reported as recurrent")
+    run.floor("T12 missing-value masks", n, 1)
+
+
 def t7(run: Run, prog: Program):
     """Size provenance of block assemblies: when a matrix block `M[:S, ...] =
     self.P.<matrix>()` is sized by the stored size S, S must have been measured
@@ -704,6 +850,12 @@ def t6(run: Run, cy: CyProgram):
 
 
 def check(run: Run, prog: Program, cy: CyProgram, sites=None):
+    run.rule("T12", "the missing-value mask of a recurrence plot is computed on the "
+             "embedded states, not on the raw samples")
+    run.rule("T11", "a size attribute measured on the freshly built matrix is not "
+             "overwritten later in the same method (e.g. by the embedding setter)")
+    run.rule("T10", "the adjacency handed to Network.__init__ keeps the shape of the "
+             "recurrence matrix (the attribute N is shared by plot and network)")
     run.rule("T9", "a diagonal stride taken from self.N belongs to a matrix whose size "
              "self.N still denotes")
     run.rule("T8", "distance kernels keep every floating intermediate at the "
@@ -738,5 +890,7 @@ def check(run: Run, prog: Program, cy: CyProgram, sites=None):
     t5(run, cy)
     t6(run, cy)
     t7(run, prog)
+    t11(run, prog)
+    t12(run, prog)
     t8(run, cy)
     t9(run, prog)
